@@ -192,7 +192,8 @@ def install(w):
     # ---- description (get_text_content by name)
     gtc = Contract(EV + "get_text_content", params={"text_node": "Node"}, ensures=lambda s0, s, text_node, result: {"named": Val.s(result) == GTC(s0, text_node), "str": Val.is_strv(result)},
                    allocates=True, result_ty="str", modular=True, trusted=True,
-                   assumptions=("get_text_content enters _description_rule by name (ghost text_content_of); its frame is proved in C11; the collected text itself is not specified",))
+                   assumptions=("get_text_content enters its callers by name (ghost text_content_of: the function is deterministic); its frame is proved in C11 and "
+                                "'empty exactly when there is no text anywhere' by the task C19/get_text_content[emptiness]; which text is collected is not specified",))
     gtc.writes = ()
 
     PARENTS = [("connectionDefinition", EW.CONNECTION_DEFINITION_DESCRIPTION_MISSING), ("designDescription", EW.DESIGN_DESCRIPTION_DESCRIPTION_MISSING),
@@ -603,4 +604,85 @@ def install_tree_order(w):
     w.loop(EVT, 1, inv=inv, axioms=loop_axioms, var_types={"child": "Node"})
     w.call_lemmas[(EVT, EVT)] = lambda s0, s, v: frames(s0, s)
     w.call_lemmas[(EVT, EVN)] = lambda s0, s, v: frames(s0, s)
+    return con
+
+
+# ------------------------------------------------------------------------------------------------ get_text_content: when is the collected text empty
+def no_text_anywhere(s, n):
+    """neither the node nor any para / markdown descendant of it has non-empty content"""
+    from metapype.eml import names
+    m = z3.Int("nt_m")
+    return z3.And(z3.Not(truthy_content(s, n)),
+                  smt.FA([m], z3.Implies(z3.And(SUB(s, n, m), m != n, z3.Or(s.name(m) == z3.StringVal(names.PARA), s.name(m) == z3.StringVal(names.MARKDOWN))),
+                                         z3.Not(truthy_content(s, m))), patterns=[SUB(s, n, m)]))
+
+
+def install_text_content(w):
+    """get_text_content verified for the one thing the evaluators use it for: the collected text is empty exactly when there is no text anywhere
+    (own content, para and markdown descendants).  Which text is collected, and in which order, is not specified (the function's own comment
+    says the order is not meaningful)."""
+    from . import c09_queries as Q9
+    from metapype.eml import names
+    Q9.install_find_all_descendants(w)
+    q = EV + "get_text_content"
+
+    def requires(s, text_node):
+        return {"wf": wf_sub(s, text_node), "kids-typed": kids_typed(s), "tree": TREE(s, text_node), "schema": node_schema(s, text_node),
+                "contents-typed": content_typed(s)}
+
+    def content_typed(s):
+        m = z3.Int("ct_m")
+        c = s.f("_content", m)
+        return smt.FA([m], z3.Implies(s.is_node(m), z3.Or(c == Val.none, Val.is_strv(c))), patterns=[s.f("_content", m)])
+
+    def axioms(s, text_node):
+        return tree_axioms(s, text_node)
+
+    def ensures(s0, s, text_node, result):
+        return {"str": Val.is_strv(result), "top:empty-exactly-when-there-is-no-text-anywhere": (z3.Length(Val.s(result)) == 0) == no_text_anywhere(s0, text_node),
+                "no-new-nodes": no_new_nodes(s0, s)}
+
+    def lst(v, name):
+        x = v.raw(name)
+        return x.ref if isinstance(x, PList) else x.t
+
+    def none_in(s0, s, L, upto):
+        j = z3.Int("ni_j")
+        return smt.FA([j], z3.Implies(z3.And(0 <= j, j < upto), z3.Not(truthy_content(s0, s.nat(L, j)))), patterns=[s.at(L, j)])
+
+    def all_match(s0, s, n, L, nm):
+        j = z3.Int("mm_j")
+        e = s.nat(L, j)
+        return smt.FA([j], z3.Implies(z3.And(0 <= j, j < s.len(L)), z3.And(Val.is_ref(s.at(L, j)), s0.is_node(e), SUB(s0, n, e), e != n, s0.name(e) == z3.StringVal(nm))),
+                      patterns=[s.at(L, j)])
+
+    def complete(s0, s, n, L, nm):
+        """every descendant with that name is somewhere in the list (from the rank clause of find_all_descendants)"""
+        m = z3.Int("cm_m")
+        r = Q9.RK(s0, n, nm, m)
+        return smt.FA([m], z3.Implies(z3.And(SUB(s0, n, m), m != n, s0.name(m) == z3.StringVal(nm)), z3.And(0 <= r, r < s.len(L), s.at(L, r) == Val.ref(m))),
+                      patterns=[Q9.RK(s0, n, nm, m)])
+
+    def inv_paras(s0, s, v):
+        P = lst(v, "paras")
+        c = v.V("content")
+        return {"bound": v._k <= s.len(P), "str": Val.is_strv(c), "paras": z3.And(all_match(s0, s, v.text_node, P, names.PARA), complete(s0, s, v.text_node, P, names.PARA)),
+                "empty-so-far": (z3.Length(Val.s(c)) == 0) == z3.And(z3.Not(truthy_content(s0, v.text_node)), none_in(s0, s, P, v._k)),
+                "no-new-nodes": no_new_nodes(s0, s), "top": s.top >= s0.top}
+
+    def inv_markdowns(s0, s, v):
+        P, M = lst(v, "paras"), lst(v, "markdowns")
+        c = v.V("content")
+        return {"bound": v._k <= s.len(M), "str": Val.is_strv(c),
+                "lists": z3.And(all_match(s0, s, v.text_node, P, names.PARA), complete(s0, s, v.text_node, P, names.PARA),
+                                all_match(s0, s, v.text_node, M, names.MARKDOWN), complete(s0, s, v.text_node, M, names.MARKDOWN)),
+                "empty-so-far": (z3.Length(Val.s(c)) == 0) == z3.And(z3.Not(truthy_content(s0, v.text_node)), none_in(s0, s, P, s.len(P)), none_in(s0, s, M, v._k)),
+                "no-new-nodes": no_new_nodes(s0, s), "top": s.top >= s0.top}
+
+    con = Contract(q, params={"text_node": "Node"}, requires=requires, axioms=axioms, ensures=ensures, allocates=True, result_ty="str", modular=False,
+                   mod=lambda s0, r, **kw: z3.BoolVal(False), assumptions=("T-unfold(Sub,W,Tree,desc_count,desc_rank)",))
+    vt = {"para": "Node", "markdown": "Node", "content": "str"}
+    w.loop(q, 1, inv=inv_paras, var_types=vt)
+    w.loop(q, 2, inv=inv_markdowns, var_types=vt)
+    w.call_lemmas[(q, Q9.Q_FAD)] = lambda s0, s, v: Q9.desc_frame_steps(s0, s)
     return con
